@@ -121,14 +121,15 @@ def tok(rng, x):
 
 
 def tok_value(t):
-    if t[:2] in ("F:", "I:", "L:", "P:"):
+    if t[:2] in ("F:", "I:", "L:", "P:", "K:"):
         return parse_rat(t[2:])
     return parse_rat(t)
 
 
-def kind_tok(rng, x):
-    """amount x handed to the constructor as int / float / stdlib Decimal /
-    Fraction / decimalfp Decimal, whichever can hold it exactly"""
+def kind_tok(rng, x, ctor=False):
+    """number x as int / float / Fraction / decimalfp Decimal (and, for the
+    constructor only, standard library Decimal: it is not a numbers.Real, the
+    arithmetic operators do not accept it), whichever can hold it exactly"""
     kinds = ["", "F:"]
     if x.denominator == 1:
         kinds += ["I:", "I:"]
@@ -139,7 +140,7 @@ def kind_tok(rng, x):
         d //= 2
     while d % 5 == 0:
         d //= 5
-    if d == 1:
+    if d == 1 and ctor:
         kinds += ["P:"]
     return rng.choice(kinds) + rat(x)
 
